@@ -15,3 +15,5 @@ open Model.OMapRep
 #print axioms abs_ofList
 #print axioms agree_of_universe
 #print axioms inv_maps_are_reps
+#print axioms revLoop_eq_reverse
+#print axioms reverse_keys
